@@ -105,8 +105,15 @@ Self(p)    == Cn(p, IF p.w THEN Star(p.n) ELSE p.n)
 \* Everything one pattern can be rewritten to: two IPv4 addresses, one IPv6
 \* address, both keywords, a CNAME to each target, and the pattern itself
 \* (for an exact pattern whose name is a target that is one of the CNAMEs).
+\* "v6m" is an IPv4-mapped IPv6 literal (::ffff:a.b.c.d).  The family of an
+\* address entry is that of the TEXT the administrator wrote ("IPv4 address:
+\* use this IP in A response, IPv6 address: use this IP in AAAA response"): a
+\* mapped literal is IPv6 text, hence an AAAA value and nothing for A.  (The
+\* harness writes all addresses in seeded legal spellings: compressed / full /
+\* upper-case hex, "::", "::1", 0.0.0.0, the mapped one with dotted or hex tail.)
 EntriesOf(p) ==
     <<Ip4(p, "v4a"), Ip4(p, "v4b"), Ip6(p, "v6a"), Exc(p, "A"), Exc(p, "AAAA")>>
+      \o (IF U = "big" THEN <<Ip6(p, "v6m")>> ELSE <<>>)
       \o [i \in DOMAIN TargetSeq |-> Cn(p, TargetSeq[i])]
       \o (IF p.w \/ p.n \notin Targets THEN <<Self(p)>> ELSE <<>>)
 
@@ -483,7 +490,7 @@ pA == [w |-> FALSE, n |-> ac]
 pB == [w |-> FALSE, n |-> bc]
 pX == [w |-> FALSE, n |-> xac]
 pW == [w |-> TRUE, n |-> ac]
-HEntrySeq == <<Ip4(pA, "v4a"), Ip4(pA, "v4b"), Ip6(pA, "v6a"), Exc(pA, "A"), Cn(pA, bc),
+HEntrySeq == <<Ip4(pA, "v4a"), Ip4(pA, "v4b"), Ip6(pA, "v6a"), Ip6(pA, "v6m"), Exc(pA, "A"), Cn(pA, bc),
                Cn(pX, ac), Ip4(pW, "v4b"), Cn(pW, bc), Cn(pB, ac)>>
 HEntries == {HEntrySeq[i] : i \in DOMAIN HEntrySeq}
 \* One entry that is not in the table (for the edits that change nothing).
